@@ -3,7 +3,9 @@ use rusty_pc::*;
 
 use crate::error::ParserError;
 use crate::input::StringView;
-use crate::tokens::{TokenMatcher, TokenType, any_symbol_of, any_token_of, peek_token};
+use crate::tokens::{
+    MAX_IDENTIFIER_LENGTH, TokenMatcher, TokenType, any_symbol_of, any_token_of, peek_token,
+};
 use crate::{AsBareName, BareName, ExpressionType, HasExpressionType, ToBareName, TypeQualifier};
 
 /// Defines a name.
@@ -188,7 +190,13 @@ pub fn bare_name_without_dots() -> impl Parser<StringView, Output = BareName, Er
 ///
 /// Usage: label declaration (but also used internally in the module).
 pub fn identifier() -> impl Parser<StringView, Output = Token, Error = ParserError> {
-    any_token_of!(TokenType::Identifier)
+    any_token_of!(TokenType::Identifier).and_then(|token| {
+        if token.as_str().len() > MAX_IDENTIFIER_LENGTH {
+            Err(ParserError::IdentifierTooLong)
+        } else {
+            Ok(token)
+        }
+    })
 }
 
 /// Parses a type qualifier character.
